@@ -106,7 +106,7 @@ Proof.
 Qed.
 
 Lemma set_len2 a b : same_elt b a = false -> set_len [a; b] = 2.
-Proof. intros H. unfold set_len, py_set. cbn [fold_left]. unfold set_add at 2. cbn [existsb]. unfold set_add. cbn [existsb app]. rewrite H. reflexivity. Qed.
+Proof. intros _. reflexivity. Qed.
 Lemma set_len1 a : set_len [a] = 1.
 Proof. reflexivity. Qed.
 Lemma same_elt_sign m i g lo hi s v ch m' i' g' lo' hi' s' v' ch' : s <> s' ->
